@@ -4,13 +4,21 @@
       not_after], both ends strict, seconds;
     - [verify]   = [KeyBundle::verify] (key_bundle/key_bundle.rs): lifetime first, then the
       XEdDSA signature of the pre-key under the identity key ([sig_ok], abstract);
-    - [add_onetime] / [add_longterm] = [KeyRegistry::add_*_bundle]: verify, then push to the
-      member's [Vec];
+    - [add_onetime] / [add_longterm] = [KeyRegistry::add_*_bundle]: verify FIRST (also when the
+      very same bundle is already stored), then push to the member's [Vec]; the long-term path
+      does not push a bundle that is already in the member's [Vec] ([bundles.contains], derived
+      [PartialEq] = [bundle_eqb]) — registering the same, still valid, bundle twice is accepted
+      and leaves the registry as it was; the one-time path pushes a duplicate;
     - [get_onetime] = [PreKeyRegistry<_, OneTimeKeyBundle>::key_bundle] *as repaired* (pop until
       a bundle verifies); [get_onetime_asis] is the code before the repair (plain [pop]);
     - [get_longterm] = [PreKeyRegistry<_, LongTermKeyBundle>::key_bundle] with
-      [latest_key_bundle] (only the lifetime is re-checked; furthest [not_after] wins, the
-      first one on ties);
+      [latest_key_bundle] *as repaired* (every stored bundle is re-verified — lifetime and
+      signature — when looked up; furthest [not_after] wins, the first one on ties);
+      [get_longterm_asis] is the code before that repair (only the lifetime re-checked);
+    - [SetOT] / [SetLT] = a member's [Vec] replaced by an ARBITRARY list: registry state restored
+      from its serde representation (persistence) — nothing is verified on that path; the
+      getters are defined over arbitrary stored lists, not only over lists produced by [add_*];
+    - [Count] = number of stored bundles of a member (read off the serialised state);
     - [remove_expired] = [KeyRegistry::remove_expired].
 
     A member's [Vec] is kept newest-first ([push] = cons, [pop] = head); [latest_key_bundle]
@@ -49,6 +57,12 @@ Fixpoint update (m : amap) (i : N) (v : list bundle) : amap :=
 Record reg := { onetime : amap; longterm : amap }.
 Definition init : reg := {| onetime := []; longterm := [] |}.
 
+Definition bundle_eqb (a b : bundle) : bool :=
+  (nb a =? nb b) && (na a =? na b) && Bool.eqb (sig_ok a) (sig_ok b) && (tag a =? tag b).
+Definition contains (l : list bundle) (b : bundle) : bool := existsb (bundle_eqb b) l.
+Definition stored (m : amap) (i : N) : list bundle :=
+  match lookup m i with Some l => l | None => [] end.
+
 Definition push (m : amap) (i : N) (b : bundle) : amap :=
   update m i (b :: match lookup m i with Some l => l | None => [] end).
 
@@ -57,6 +71,7 @@ Inductive out :=
 | Rejected (e : verr)
 | Got (b : option bundle)
 | Expired            (* KeyRegistryError::KeyBundlesExpired *)
+| Cnt (ot lt : N)
 | Done.
 
 Definition add_onetime (t : N) (y : reg) (i : N) (b : bundle) : reg * out :=
@@ -65,10 +80,13 @@ Definition add_onetime (t : N) (y : reg) (i : N) (b : bundle) : reg * out :=
   | None => ({| onetime := push (onetime y) i b; longterm := longterm y |}, Accepted)
   end.
 
+(** [verify()?] comes first; a bundle that is already registered is not pushed again. *)
 Definition add_longterm (t : N) (y : reg) (i : N) (b : bundle) : reg * out :=
   match verify t b with
   | Some e => (y, Rejected e)
-  | None => ({| onetime := onetime y; longterm := push (longterm y) i b |}, Accepted)
+  | None =>
+      if contains (stored (longterm y) i) b then (y, Accepted)
+      else ({| onetime := onetime y; longterm := push (longterm y) i b |}, Accepted)
   end.
 
 (** Repaired: pop until a bundle that verifies *now* is found; the skipped ones are dropped. *)
@@ -94,26 +112,41 @@ Definition get_onetime_asis (t : N) (y : reg) (i : N) : reg * out :=
   | Some (b :: r) => ({| onetime := update (onetime y) i r; longterm := longterm y |}, Got (Some b))
   end.
 
-(** [latest_key_bundle] over the Vec in push order. *)
-Definition lkb_step (t : N) (acc : option bundle) (b : bundle) : option bundle :=
-  if life_ok t b then
+(** [latest_key_bundle] over the Vec in push order; [ok] = the per-bundle filter
+    ([bundle.verify()] as repaired, [bundle.lifetime().verify()] before). *)
+Definition lkb_step_gen (ok : bundle -> bool) (acc : option bundle) (b : bundle) : option bundle :=
+  if ok b then
     match acc with
     | None => Some b
     | Some c => if na c <? na b then Some b else acc
     end
   else acc.
+Definition lkb_step (t : N) := lkb_step_gen (valid_at t).
 Definition latest_key_bundle (t : N) (vec : list bundle) : option bundle :=
   fold_left (lkb_step t) vec None.
+Definition latest_key_bundle_asis (t : N) (vec : list bundle) : option bundle :=
+  fold_left (lkb_step_gen (life_ok t)) vec None.
 
-Definition get_longterm (t : N) (y : reg) (i : N) : reg * out :=
+Definition get_longterm_gen (lkb : N -> list bundle -> option bundle) (t : N) (y : reg) (i : N) : reg * out :=
   match lookup (longterm y) i with
   | None => (y, Got None)
   | Some l =>
-      match latest_key_bundle t (rev l) with
+      match lkb t (rev l) with
       | None => (y, match l with [] => Got None | _ => Expired end)
       | Some b => (y, Got (Some b))
       end
   end.
+Definition get_longterm := get_longterm_gen latest_key_bundle.
+(** Before the repair: the signature of a stored bundle is not looked at again. *)
+Definition get_longterm_asis := get_longterm_gen latest_key_bundle_asis.
+
+(** Registry state restored from persistence: member [i]'s Vec becomes [l], unverified. *)
+Definition set_onetime (y : reg) (i : N) (l : list bundle) : reg * out :=
+  ({| onetime := update (onetime y) i l; longterm := longterm y |}, Done).
+Definition set_longterm (y : reg) (i : N) (l : list bundle) : reg * out :=
+  ({| onetime := onetime y; longterm := update (longterm y) i l |}, Done).
+Definition count (y : reg) (i : N) : reg * out :=
+  (y, Cnt (N.of_nat (List.length (stored (onetime y) i))) (N.of_nat (List.length (stored (longterm y) i)))).
 
 Definition remove_expired (t : N) (y : reg) : reg * out :=
   let f := map (fun kv : N * list bundle => (fst kv, filter (valid_at t) (snd kv))) in
@@ -125,7 +158,10 @@ Inductive op :=
 | AddLT (t i : N) (b : bundle)
 | GetOT (t i : N)
 | GetLT (t i : N)
-| RemoveExpired (t : N).
+| RemoveExpired (t : N)
+| SetOT (t i : N) (l : list bundle)
+| SetLT (t i : N) (l : list bundle)
+| Count (t i : N).
 
 Definition step (get_ot : N -> reg -> N -> reg * out) (y : reg) (o : op) : reg * out :=
   match o with
@@ -134,6 +170,9 @@ Definition step (get_ot : N -> reg -> N -> reg * out) (y : reg) (o : op) : reg *
   | GetOT t i => get_ot t y i
   | GetLT t i => get_longterm t y i
   | RemoveExpired t => remove_expired t y
+  | SetOT _ i l => set_onetime y i l
+  | SetLT _ i l => set_longterm y i l
+  | Count _ i => count y i
   end.
 
 Fixpoint run (get_ot : N -> reg -> N -> reg * out) (y : reg) (ops : list op) : reg * list out :=
